@@ -178,7 +178,7 @@ func Drive(w *ev.Writer, o Opts) error {
 		o.Repo = repo()
 	}
 	r := rand.New(rand.NewSource(o.Seed*7919 + int64(o.Shard)*104729 + 17))
-	nmsg, npair := 100, 80
+	nmsg, npair := 70, 60
 	if o.thorough() {
 		nmsg, npair = 1400, 1100
 	}
